@@ -60,9 +60,21 @@ def doc_v2(guid):
     return {"version": "2.0", "enabled": True, "guid": guid, "rules": {"wireserver": V2_ITEM, "imds": None, "hostga": None}}
 
 
-def P(status_ok=True, acq=0, att=0, rotate=False, guid="latch", store_fail=None, local_fail=False, reissue=False):
+def P(status_ok=True, acq=0, att=0, rotate=False, guid="latch", store_fail=None, local_fail=False, reissue=False, disabled=False):
     return {"status_ok": status_ok, "acq": acq, "att": att, "rotate": rotate, "guid": guid, "store_fail": store_fail,
-            "local_fail": local_fail, "reissue": reissue}
+            "local_fail": local_fail, "reissue": reissue, "disabled": disabled}
+
+
+def doc_for(scn, cfg, guid):
+    """the status document of one poll: the scenario's flavour, reported disabled when the poll says so
+    (the host keeps naming its latched guid while the customer has the channel turned off)"""
+    d = (doc_v1 if scn["doc"] == "v1" else doc_v2)(guid)
+    if cfg.get("disabled"):
+        if d["version"] == "2.0":
+            d["enabled"] = False
+        else:
+            d["state"] = "Disabled"
+    return d
 
 
 SHIM = [None]       # path of the built tools/c08_openfail.c (LD_PRELOAD), set by run()
@@ -108,6 +120,13 @@ def scenarios():
               "latched": G[0], "keys": old + k, "doc": "v1", "polls": [P()]})
     s.append({"name": "fresh-latch-among-6-older-keys", "init": {kk["guid"] + ".key": kkdrv.key_file_bytes(kk) for kk in old[3:]},
               "issued": len(old[3:]), "latched": None, "keys": old[3:] + k, "doc": "v1", "polls": [P()]})
+    # the customer turns the secure channel off and on again between polls; the host keeps its latch and keeps naming it
+    s.append({"name": "latch-disable-enable", "init": {}, "issued": 0, "latched": None, "keys": k, "doc": "v1",
+              "polls": [P(), P(disabled=True), P()]})
+    s.append({"name": "start-while-disabled-then-enable", "init": {G[0] + ".key": full0}, "issued": 1, "latched": G[0], "keys": k, "doc": "v1",
+              "polls": [P(disabled=True), P()]})
+    s.append({"name": "latch-disable-enable-v2", "init": {}, "issued": 0, "latched": None, "keys": k, "doc": "v2",
+              "polls": [P(), P(disabled=True), P(disabled=True), P()]})
     # a host that hands out its last, not yet attested, key again (as the repository's server_mock does)
     s.append({"name": "fresh-latch-reissuing-host", "init": {}, "issued": 0, "latched": None, "keys": k, "doc": "v1",
               "polls": [P(reissue=True)], "reissue": True})
@@ -134,7 +153,7 @@ class HonestHost:
         self.latched = scn["latched"]
         self.init_latched = scn["latched"]
         self.key_dir = key_dir
-        self.docf = doc_v1 if scn["doc"] == "v1" else doc_v2
+        self.scn = scn
         self.attest_checks = []
 
     def issued_keys(self):
@@ -148,7 +167,7 @@ class HonestHost:
             if not cfg["status_ok"]:
                 return {"code": 500, "body": "boom"}
             g = self.latched if cfg["guid"] == "latch" else cfg["guid"]
-            return {"code": 200, "body": kkdrv.doc_json(self.docf(g))}
+            return {"code": 200, "body": kkdrv.doc_json(doc_for(self.scn, cfg, g))}
 
         def acquire():
             if cfg["acq"] == 2:
@@ -173,6 +192,13 @@ class HonestHost:
                 content = None
             want = [kkdrv.key_file_bytes(kk) for kk in self.issued_keys() if kk["guid"] == guid]
             self.attest_checks.append((guid, content is not None and content in want))
+            # "a key reported latched by the host and stored locally is never replaced while its file could be intact":
+            # a second latch is legitimate only after the host dropped / renamed its latch or the old file was damaged from outside
+            old_g = self.latched
+            init_c = self.scn["init"].get(old_g + ".key") if old_g is not None else None
+            damaged = init_c is not None and whole_key(init_c) is None
+            if old_g is not None and guid != old_g and cfg["guid"] == "latch" and not cfg.get("local_fail") and not damaged:
+                self.attest_checks.append(("replaced (%s by %s)" % (old_g, guid), None))
             if cfg["att"] == 2:
                 return {"code": 403, "body": ""}
             self.latched = guid
@@ -482,6 +508,8 @@ def prop_check(scn, rec):
             return "the host has latched %s but the key store does not hold that key (file: %s)" % (g, "absent" if c is None else "%d bytes" % len(c))
     # "the agent never attests a key it has not first stored and read back identically"
     for guid, ok in rec["attest_checks"]:
+        if ok is None:
+            return "the latched key was %s although nothing damaged its file and the host kept naming it" % guid
         if not ok:
             return "an attestation for %s reached the host while %s.key did not hold that key" % (guid, guid)
     # "is found there after restart, and is used without requesting a new one"
@@ -512,7 +540,7 @@ def prop_check(scn, rec):
 
 # ----------------------------------------------------------------------------------------
 def coq_hscript(scn, cfg, items):
-    docf = "(fun g => %s)" % kkdrv.coq_doc((doc_v1 if scn["doc"] == "v1" else doc_v2)(None), items).replace("d_guid := (@None bytes)", "d_guid := g")
+    docf = "(fun g => %s)" % kkdrv.coq_doc(doc_for(scn, cfg, None), items).replace("d_guid := (@None bytes)", "d_guid := g")
     assert "d_guid := g" in docf
     guid = "None" if cfg["guid"] == "latch" else "(Some %s)" % copt(cb(cfg["guid"]) if cfg["guid"] is not None else None, "bytes")
     sf = "None"
@@ -863,7 +891,7 @@ def run(ctx):
         "evaluations": n_killed + len(scns) + codec_cases,
         "distinct_nontrivial": sum(len(v) for v in matched_states.values()),
         "traces_validated_against_impl": len(scns) - len({d["case"].get("scenario") for d in disagreements if isinstance(d.get("case"), dict) and d["case"].get("scenario")}),
-        "rule": "18 scenarios (key directories with 6-9 older key files sorting below and above the latched guid; a host that re-issues its unattested key; transient EMFILE / EIO on the look-up of an intact latched key file (LD_PRELOAD shim), then healthy restart; fresh latch v1.0 / v2.0, restart with key, rotation (latch dropped / other guid named), unreadable local key, foreign guid, acquire answer lost, "
+        "rule": "21 scenarios (channel disabled and re-enabled between polls while the host keeps naming its latch; key directories with 6-9 older key files sorting below and above the latched guid; a host that re-issues its unattested key; transient EMFILE / EIO on the look-up of an intact latched key file (LD_PRELOAD shim), then healthy restart; fresh latch v1.0 / v2.0, restart with key, rotation (latch dropped / other guid named), unreadable local key, foreign guid, acquire answer lost, "
                 "attest answer lost, attest refused, status error, rename fails) x SIGKILL on entering the N-th call of each of "
                 "openat/write/rename/read/statx on the key files and socket/connect/writev/recvfrom/shutdown (%s), then restart on the "
                 "surviving directory; the observed (key directory, host latch, issued count, request log) must be one of the model's "
